@@ -373,5 +373,7 @@ def jobs(tier, seed):
         out.append(Job("C04_BM_" + k, src, [dict(name="BM " + k, fn=check_bm, kw=dict(k=k))], unwind=200))
     out.append(Job("C04_BM_cross", src, [dict(name="BM k_bm_store_load value in any live sandbox", fn=check_bm, kw=dict(k="k_bm_store_load", cross=True))], unwind=200, native=False))
     out.append(Job("C04_BM_failed_create", src, [dict(name="BM k_bm_failed_create", fn=check_bm_failed)], unwind=200, native=False))
+    from specs import C07
+    out.append(Job("C04_BM_more", '#include "C07_bm2.inc"\n', [dict(name="BM " + k, fn=C07.check_bm2, kw=dict(k=k)) for k in ("k_bm_store_nested", "k_bm_load_nested", "k_bm_store_fnptr", "k_bm_ctx_fnptrptr")], native=False))
     out.append(Job("C04_BM_same", src, [dict(name="BM k_bm_same", fn=check_bm_same)], unwind=200))
     return out
